@@ -13,24 +13,20 @@ Open Scope Z_scope.
 
 (* MAIN: for every classification of resource names, every setting of the four
    gates and EVERY pod (any containers, any init containers / sidecars in any
-   order, any statuses, overhead, pod-level requests, resize conditions) whose
-   amounts are on the conversion grid: volcano's vector is upstream's request
+   order, any container and pod-level statuses, overhead, pod-level requests,
+   resize conditions, DRA claim statuses) whose amounts are on the conversion grid: volcano's vector is upstream's request
    converted by NewResource, plus pods = 1 — as an equality of Resource values
    (cpu, memory, the scalar map with exactly the same names). *)
 Theorem C15_volcano_eq_upstream : forall tracked plsup ippvs plr ippl dra p,
   pod_ok tracked plsup p ->
-  (ippl && ippvs = true -> p_pstat p = None) ->
-  (dra = true -> p_claims p = []) ->
-  vc_pod_request tracked plsup ippvs plr p =
+  vc_pod_request tracked plsup ippvs plr ippl dra p =
   add_scalar (new_resource tracked (k8s_pod_requests plsup (opts_of ippvs plr ippl dra) p)) pods_name 1.
 Proof. exact volcano_eq_upstream. Qed.
 Print Assumptions C15_volcano_eq_upstream.
 
 Theorem C15_volcano_eq_upstream_amounts : forall tracked plsup ippvs plr ippl dra p,
   pod_ok tracked plsup p ->
-  (ippl && ippvs = true -> p_pstat p = None) ->
-  (dra = true -> p_claims p = []) ->
-  let vc := vc_pod_request tracked plsup ippvs plr p in
+  let vc := vc_pod_request tracked plsup ippvs plr ippl dra p in
   let up := new_resource tracked (k8s_pod_requests plsup (opts_of ippvs plr ippl dra) p) in
   cpu vc = cpu up /\ mem vc = mem up /\
   sget vc pods_name = sget up pods_name + 1 /\
@@ -41,10 +37,8 @@ Print Assumptions C15_volcano_eq_upstream_amounts.
 (* consequently a node fits under volcano's count iff it fits under upstream's *)
 Theorem C15_fits_iff : forall tracked plsup ippvs plr ippl dra p,
   pod_ok tracked plsup p ->
-  (ippl && ippvs = true -> p_pstat p = None) ->
-  (dra = true -> p_claims p = []) ->
   forall eps free d,
-  less_equal eps (vc_pod_request tracked plsup ippvs plr p) free d =
+  less_equal eps (vc_pod_request tracked plsup ippvs plr ippl dra p) free d =
   less_equal eps (add_scalar (new_resource tracked (k8s_pod_requests plsup (opts_of ippvs plr ippl dra) p)) pods_name 1) free d.
 Proof. exact fits_iff. Qed.
 Print Assumptions C15_fits_iff.
@@ -58,9 +52,7 @@ Print Assumptions C15_law_is_the_relation.
 
 Theorem C15_law_accepts_models : forall tracked plsup ippvs plr ippl dra p,
   pod_ok tracked plsup p ->
-  (ippl && ippvs = true -> p_pstat p = None) ->
-  (dra = true -> p_claims p = []) ->
-  let vc := vc_pod_request tracked plsup ippvs plr p in
+  let vc := vc_pod_request tracked plsup ippvs plr ippl dra p in
   law_task_request (new_resource tracked (k8s_pod_requests plsup (opts_of ippvs plr ippl dra) p)) vc vc vc = true.
 Proof. exact law_accepts_models. Qed.
 Print Assumptions C15_law_accepts_models.
@@ -77,54 +69,58 @@ Theorem C15_new_resource_max : forall tracked a b, good a -> good b ->
 Proof. exact new_max. Qed.
 Print Assumptions C15_new_resource_max.
 
-(* --- each hypothesis is necessary: the faithful models differ without it --- *)
+(* --- the two divergences found on the real code, repaired by fix: commits in
+   /repo.  The unfixed code never read the two gates (= this model with ippl /
+   dra false on volcano's side): 1000m against upstream's 2000m; after the fix 2000m --- *)
 
-(* genuine divergence on default gates (Kubernetes 1.36): pod-level in-place resize *)
-Theorem C15_pod_level_resize_refuted :
-  exists p, pod_ok all_tracked huge_only p /\ p_claims p = [] /\
-    cpu (vc_pod_request all_tracked huge_only true true p) = 1000 /\
-    cpu (new_resource all_tracked (k8s_pod_requests huge_only (opts_of true true true false) p)) = 2000.
-Proof. exact pod_level_resize_refuted. Qed.
-Print Assumptions C15_pod_level_resize_refuted.
+Theorem C15_pod_level_resize_refuted_before_fix :
+  exists p, pod_ok all_tracked huge_only p /\
+    cpu (vc_pod_request all_tracked huge_only true true false false p) = 1000 /\
+    cpu (new_resource all_tracked (k8s_pod_requests huge_only (opts_of true true true false) p)) = 2000 /\
+    cpu (vc_pod_request all_tracked huge_only true true true false p) = 2000.
+Proof. exact pod_level_resize_refuted_before_fix. Qed.
+Print Assumptions C15_pod_level_resize_refuted_before_fix.
 
-(* divergence under the alpha gate DRANodeAllocatableResources *)
-Theorem C15_dra_claims_refuted :
-  exists p, pod_ok all_tracked huge_only p /\ p_pstat p = None /\
-    cpu (vc_pod_request all_tracked huge_only true true p) = 1000 /\
-    cpu (new_resource all_tracked (k8s_pod_requests huge_only (opts_of true true true true) p)) = 2000.
-Proof. exact dra_claims_refuted. Qed.
-Print Assumptions C15_dra_claims_refuted.
+Theorem C15_dra_claims_refuted_before_fix :
+  exists p, pod_ok all_tracked huge_only p /\
+    cpu (vc_pod_request all_tracked huge_only true true true false p) = 1000 /\
+    cpu (new_resource all_tracked (k8s_pod_requests huge_only (opts_of true true true true) p)) = 2000 /\
+    cpu (vc_pod_request all_tracked huge_only true true true true p) = 2000.
+Proof. exact dra_claims_refuted_before_fix. Qed.
+Print Assumptions C15_dra_claims_refuted_before_fix.
+
+(* --- each hypothesis of pod_ok is necessary: the faithful models differ without it --- *)
 
 (* amounts finer than milli-cpu: per-container rounding vs rounding of the sum *)
 Theorem C15_off_grid_refuted :
-  exists p, p_pstat p = None /\ p_claims p = [] /\
-    cpu (vc_pod_request all_tracked huge_only true true p) = 2 /\
+  exists p,
+    cpu (vc_pod_request all_tracked huge_only true true true false p) = 2 /\
     cpu (new_resource all_tracked (k8s_pod_requests huge_only (opts_of true true true false) p)) = 1.
 Proof. exact off_grid_refuted. Qed.
 Print Assumptions C15_off_grid_refuted.
 
 Theorem C15_status_name_collision_refuted :
-  exists p, p_pstat p = None /\ p_claims p = [] /\
-    cpu (vc_pod_request all_tracked huge_only true true p) = 1000 /\
+  exists p,
+    cpu (vc_pod_request all_tracked huge_only true true true false p) = 1000 /\
     cpu (new_resource all_tracked (k8s_pod_requests huge_only (opts_of true true true false) p)) = 5000.
 Proof. exact status_name_collision_refuted. Qed.
 Print Assumptions C15_status_name_collision_refuted.
 
 Theorem C15_untracked_pod_level_refuted :
-  exists p, p_pstat p = None /\ p_claims p = [] /\
-    scm (vc_pod_request none_tracked huge_only true true p) !! 7%positive = Some 0 /\
+  exists p,
+    scm (vc_pod_request none_tracked huge_only true true true false p) !! 7%positive = Some 0 /\
     scm (new_resource none_tracked (k8s_pod_requests huge_only (opts_of true true true false) p)) !! 7%positive = None.
 Proof. exact untracked_pod_level_refuted. Qed.
 Print Assumptions C15_untracked_pod_level_refuted.
 
 (* non-vacuity: a pod with sidecars between ordinary init containers, a resize
-   status, pod-level requests and overhead meets every hypothesis, and both
-   sides evaluate to cpu 3100m, memory 136 *)
+   status, pod-level requests with a pending pod-level resize, a DRA claim and
+   overhead meets the hypothesis, under all four gates on; both sides evaluate
+   to cpu 4100m, memory 208 *)
 Example C15_nonvacuous :
-  pod_ok all_tracked huge_only example_pod /\ p_pstat example_pod = None /\ p_claims example_pod = [] /\
-  cpu (vc_pod_request all_tracked huge_only true true example_pod) = 3100 /\
-  mem (vc_pod_request all_tracked huge_only true true example_pod) = 136.
+  pod_ok all_tracked huge_only example_pod /\
+  cpu (vc_pod_request all_tracked huge_only true true true true example_pod) = 4100 /\
+  mem (vc_pod_request all_tracked huge_only true true true true example_pod) = 208.
 Proof.
-  split; [exact example_pod_ok|]. split; [reflexivity|]. split; [reflexivity|].
-  split; vm_compute; reflexivity.
+  split; [exact example_pod_ok|]. split; vm_compute; reflexivity.
 Qed.
